@@ -158,7 +158,7 @@ fn gen_content(rng: &mut Rng, file: usize) -> String {
         let pad = rng.urange(0, 3);
         let mut s = "x".repeat(pad);
         let unit = *rng.pick(&["\u{e9}", "\u{20ac}", "\u{1f600}", "ab\u{e9}"]);
-        let target = *rng.pick(&[4100usize, 8200, 8200, 16400, 24600]);
+        let target = *rng.pick(&[4100usize, 8200, 8200, 16400, 24600, 65600, 131200]);
         while s.len() < target {
             s.push_str(unit);
         }
